@@ -350,6 +350,15 @@ func (v *cdecodeView) Exec(line string) (string, string, []string) {
 		if kind == "ok" {
 			fail("C12: input that redis rejects as a protocol error was accepted: %q", data)
 		}
+		if kind == "incomplete" && len(data) < 200 && !hasLongDigitRun(data, 3) {
+			// the decoder waits for more bytes. That is fine when it has not seen the end of the offending line yet -
+			// but then more bytes must bring the verdict. With 4 KB of line ends behind it (more than any length this
+			// short input can declare) the input must be rejected, not waited on: a connection that sent it would stall
+			ext := append(append([]byte{}, data...), bytes.Repeat([]byte("\r\n"), 2048)...)
+			if r2 := core.VerifDecode(limit, ext); !r2.NilMsg && r2.Err != nil && r2.Err != codec.ErrInvalidResp {
+				fail("C12: the malformed input %q is neither answered with an error nor is the connection closed, whatever follows it: the proxy waits for more bytes forever", data)
+			}
+		}
 	case errIncomplete:
 		tags = append(tags, "in:incomplete", "dom:C08")
 		if kind == "invalid" {
@@ -489,6 +498,23 @@ func checkSplit(name string, items [][]byte, frags map[int32][]byte) []string {
 		}
 	}
 	return fails
+}
+
+// hasLongDigitRun: more than n consecutive decimal digits somewhere (a declared length that large is out of reach of the
+// stall probe)
+func hasLongDigitRun(b []byte, n int) bool {
+	run := 0
+	for _, c := range b {
+		if c >= '0' && c <= '9' {
+			run++
+			if run > n {
+				return true
+			}
+		} else {
+			run = 0
+		}
+	}
+	return false
 }
 
 func (v *cdecodeView) Shrink(line string) []string {
